@@ -6,12 +6,14 @@ CONFIG = dict(
     full_statement_proved=False,
     missing=("Proved for the model: no panic in dhcpv4.FromBytes, dhcpv4.Options.FromBytes, dhcpv6.FromBytes/MessageFromBytes/"
              "RelayMessageFromBytes/ParseOption/Options.FromBytes/DUIDFromBytes (every option type, any nesting), label decoding "
-             "and label re-encoding (restated from C19), the raw-frame reader (restated from C18), re-encoding of decoded DHCPv4 "
+             "and label re-encoding (restated from C19), the raw-frame reader (restated from C18), GetInnerMessage and the DHCPv6 "
+             "relay-reply/request/advertise/reply builders on decoded messages (restated from C16), re-encoding of decoded DHCPv4 "
              "packets; termination by structural recursion on fuel with fuel sufficiency proved (DHCPv4 option loop, DHCPv6 "
              "nesting and flat loops, label loop). "
              "NOT proved here: String/Summary/LongString (formatting goes through fmt), ZTP (ztpv4/ztpv6) and netboot string "
-             "handling, typed accessors and builders, relay decapsulation / MAC extraction, architecture lists, re-encoding of "
-             "DHCPv6 messages - where models exist they live in other checks (C15 builders, C16 relay, C17 accessors); for all of "
+             "handling, DHCPv4 typed accessors and builders, the DHCPv6 typed accessors as such, DecapsulateRelayIndex / MAC "
+             "extraction, architecture lists, re-encoding of DHCPv6 messages - where models exist they live in other checks "
+             "(C15 DHCPv4 builders, C16 relay handling, C17 DHCPv4 accessors); for all of "
              "those the assurance in C03 is the crash search of oracle c03 on the real code (testing, not proof). The search is "
              "mutation-based with behaviour-novelty feedback, not coverage-guided (no instrumentation in-process)."),
     rule=("streams v4dec/v6dec: ok/err/panic verdict of the Go decoders vs the Lean model on valid, truncated, length-perturbed and "
@@ -35,7 +37,7 @@ CONFIG = dict(
 )
 
 MANIFEST = dict(
-    text="Machine-checked theorems (Lean 4) for all byte strings, no length bound: the models of dhcpv4.FromBytes, dhcpv4.Options.FromBytes, dhcpv6.FromBytes, MessageFromBytes, RelayMessageFromBytes, ParseOption (all 32 option types at any nesting depth), Options.FromBytes and DUIDFromBytes never reach a panic guard (C03_dec4, C03_optsFromBytes, C03_dec6, C03_decMessage, C03_decRelay, C03_parseOption, C03_decOpts6, C03_decDUID, C03_labelFromBytes; C03_rawRead and C03_labelToBytes restated from C18/C19), decoded DHCPv4 packets always re-encode (C03_enc_decoded), and all of them terminate: structural recursion on fuel, with the out-of-fuel branches proved unreachable (C03_optsLoop_fuel, C03_dec6_fuel, C03_parseOption_fuel, C03_decOpts6_fuel, C03_v6_loops_fuel, C03_label_terminates). PARTIAL: read-only operations other than re-encoding (accessors, String/Summary, builders, relay handling, ZTP/netboot extractors, DHCPv6 re-encoding) and architecture lists are not proved in this check; for them, and for the real code as a whole, the evidence is an implementation-level crash search (recover + watchdog around every entry point and about 420 reflected methods and helpers, structure-aware mutation, sizes up to 65507 bytes, all netboot conversations of up to 4 messages) - testing, stated as such in the evidence (full_statement_proved=false). Tie: v4dec/v6dec differential streams (ok/err/panic verdicts) and a regenerated go/ssa inventory of panic-capable instructions that steers the search budget.",
+    text="Machine-checked theorems (Lean 4) for all byte strings, no length bound: the models of dhcpv4.FromBytes, dhcpv4.Options.FromBytes, dhcpv6.FromBytes, MessageFromBytes, RelayMessageFromBytes, ParseOption (all 32 option types at any nesting depth), Options.FromBytes and DUIDFromBytes never reach a panic guard (C03_dec4, C03_optsFromBytes, C03_dec6, C03_decMessage, C03_decRelay, C03_parseOption, C03_decOpts6, C03_decDUID, C03_labelFromBytes; C03_rawRead, C03_labelToBytes and C03_v6_builders_decoded restated from C18/C19/C16), decoded DHCPv4 packets always re-encode (C03_enc_decoded), and all of them terminate: structural recursion on fuel, with the out-of-fuel branches proved unreachable (C03_optsLoop_fuel, C03_dec6_fuel, C03_parseOption_fuel, C03_decOpts6_fuel, C03_v6_loops_fuel, C03_label_terminates). PARTIAL: read-only operations other than re-encoding (accessors, String/Summary, DHCPv4 builders, relay decapsulation by index, MAC extraction, ZTP/netboot extractors, DHCPv6 re-encoding) and architecture lists are not proved in this check; for them, and for the real code as a whole, the evidence is an implementation-level crash search (recover + watchdog around every entry point and about 420 reflected methods and helpers, structure-aware mutation, sizes up to 65507 bytes, all netboot conversations of up to 4 messages) - testing, stated as such in the evidence (full_statement_proved=false). Tie: v4dec/v6dec differential streams (ok/err/panic verdicts) and a regenerated go/ssa inventory of panic-capable instructions that steers the search budget.",
     design_ref="DESIGN.md section 6 C03",
     note=NOTE_COMMON + "The crash search is bounded testing; a panic reachable only through inputs the mutators cannot produce would be missed. Go runtime fatal errors (stack exhaustion, out of memory) abort the oracle and are reported as a broken oracle, not as a classified failure.",
     technique="Lean 4 proof (induction on fuel: no decoder branch returns panic) + model/code correspondence + implementation-level crash search under recover/watchdog steered by a go/ssa panic-site inventory",
